@@ -398,6 +398,17 @@ pub fn f_types(thorough: bool) -> Vec<Ty> {
             out.push(strukt(false, Style::Named, fields_of(&with_tail)));
         }
     }
+    // structs all of whose fields were added later: at data version 0 they consume no bytes at all
+    for repr_c in [false, true] {
+        let mut a = Field::plain("a", p(Prim::U8));
+        a.from = 1;
+        let mut b = Field::plain("b", p(Prim::String));
+        b.from = 1;
+        out.push(strukt(repr_c, Style::Named, vec![a.clone(), b.clone()]));
+        let mut c = Field::plain("c", p(Prim::U32));
+        c.from = 2;
+        out.push(strukt(repr_c, Style::Named, vec![a, c]));
+    }
     // a versioned variant inserted in the MIDDLE (not a documented evolution): at the old version
     // the later variants keep their shifted indices, so old data must be rejected by the gate
     for ri in [None, Some(IntRepr::U8)] {
